@@ -8,6 +8,13 @@ Generated (shared generator of C10, `calculate_orbit_spin_derivatives=True`)
   spin/n in [-3,3] (resonances, retrograde, zero over-represented), obliquity None | 0 | [1e-3,pi/2], l_max 2..3
   (thorough ..7), truncation 2..20, every rheology incl. CPL/CTL, scalar inputs or arrays of 1..4 elements.
 
+Input routes (every case draws one combination; the REQUESTED state is what the route describes): orbit as orbital_frequency
+  or orbital_period; each non-synchronous world's spin as a frequency or as a period - for dual calls independently per world,
+  so mixed tuples like spin_frequencies=(w0, None) with spin_periods=(None, P1) occur -; an all-None spin tuple passed as None
+  or as (None, None); entry point quick_* or single/dual_dissipation_from_dict_or_world_instance; e = 0 as 0.0 or None;
+  zero obliquity as None or 0.0.  A period P stands for the frequency days2rads(P) (conversion checked by C17), which the
+  harness computes with the same function, so the canonical call below describes bit-for-bit the same state.
+
 Oracles (a from Kepler's third law for the n passed; C, masses as passed)
   energy   G M m/(2 a^2) da/dt + sum_i C_i Omega_i dOmega_i/dt + sum_i heating_i = 0
   momentum when every obliquity is None or 0:
@@ -19,6 +26,9 @@ Oracles (a from Kepler's third law for the n passed; C, masses as passed)
   e_zero   de/dt is finite and exactly 0 where e = 0 (scalar and array calls); every returned rate is finite.
   array    array call == element-wise scalar calls: |diff| <= 1e-13 * (|value| + rate implied by the sum of absolute per-mode
            terms).  Measured: bit-identical in 1200 calibration cases.
+  route    the case's route and the canonical route (quick_*, every quantity as a frequency) give the same da/dt, de/dt,
+           dOmega_i/dt, heating_i: same tolerance as `array`; energy/momentum are evaluated on the routed call at the requested state.
+  inputs_not_mutated  no keyword argument (arrays, tuples of arrays, dicts) is modified by any call.
 Non-trivial: at least one body non-synchronous and e > 0.
 Generator domain: e, spin/n, obliquity are exactly 0 or >= 1e-6, 1e-6, 1e-3 (subnormal products otherwise, see C10); the
 'newton' (behind C10's known zero-frequency finding) gets a reduced weight; repository calls use tides_common.call_repo.
@@ -31,7 +41,8 @@ failure.  An unclassified exception is re-evaluated once in a fresh process (tid
 `reevaluated_in_fresh_process`; reason: sporadic numba run-time artefact in cold multi-process runs); a deterministic
 exception reproduces there and is reported.
 
-Sensitivity (tools/mut.py, quick tier --cases 2000; all CAUGHT)
+Sensitivity (tools/mut.py, quick tier --cases 2000; all CAUGHT; seeded/C11-1,2,3 too - C11-3, a None entry of
+spin_frequencies silently meaning spin-locked although spin_periods gives that world's spin, -> energy, route)
   fixes/revert-b813e7b.diff (de/dt NaN / ZeroDivisionError at e = 0)                       -> e_zero, exception
   single_dissipation.py 'da_dt = (2. / (orbital_motion * semi_major_axis)) * dR_dM' (2nd, semia_eccen_derivatives)
                         -> '(1. / ...'                                                        -> energy (single)
